@@ -296,6 +296,9 @@ func (d *docGen) document() (*jnode, *osm.OSM) {
 		doc.set("license", js(o.License))
 	}
 	n := d.minElems + d.rng.Intn(5)
+	if d.rng.Intn(6) == 0 {
+		n += 4 + d.rng.Intn(8) // longer documents: position-dependent behaviour
+	}
 	if n > 0 || d.rng.Intn(2) == 0 {
 		es := &jnode{k: jArr}
 		for i := 0; i < n; i++ {
